@@ -24,7 +24,7 @@ import numpy as np
 
 from acnportal import acnsim
 from acnportal.acnsim import Simulator
-from acnportal.acnsim.events import EventQueue, PluginEvent, RecomputeEvent
+from acnportal.acnsim.events import EventQueue, PluginEvent, RecomputeEvent, UnplugEvent
 from acnportal.acnsim.models import EV, Battery, Linear2StageBattery, EVSE, DeadbandEVSE, FiniteRatesEVSE
 from acnportal.acnsim.network import ChargingNetwork, Current
 from acnportal.algorithms import BaseAlgorithm
@@ -79,7 +79,7 @@ class Variation:
 
     def __init__(self, rng=None, *, st_perm=None, sess_perm=None, shift=0, evse_kinds=None, dict_shuffle=True,
                  vtypes=True, constraints="none", con_perm=False, mutate=False, twostage=False,
-                 store_hist=True, est_seed=0, verbose=False, queue_form="ctor", late_scheduler=False, np_ints=False,
+                 store_hist=True, est_seed=0, verbose=False, queue_form="ctor", late_scheduler=False, np_ints=False, sub_events=False, reuse_evs=False,
                  aware_start=False):
         self.rng = rng or random.Random(0)
         self.st_perm, self.sess_perm, self.shift = st_perm, sess_perm, shift
@@ -90,6 +90,8 @@ class Variation:
         self.est_seed = est_seed
         # how the simulator is put together (documented alternatives; none may matter)
         self.verbose, self.queue_form, self.late_scheduler = verbose, queue_form, late_scheduler
+        self.sub_events = sub_events      # events are instances of user subclasses of the three event classes
+        self.reuse_evs = reuse_evs        # the EV objects served an earlier simulation and were reset() (documented reuse)
         self.np_ints = np_ints          # arrivals / departures / event timestamps as numpy integers
         self.aware_start = aware_start  # Simulator.start carries a time zone (the clock is compared by its wall time)
 
@@ -117,6 +119,18 @@ class RecordingNetwork(ChargingNetwork):
                 self._verif_cb = cb
 
 
+class SitePlugin(PluginEvent):
+    """A user extension of an event class (no new behaviour): it is still a Plugin event."""
+
+
+class SiteUnplug(UnplugEvent):
+    pass
+
+
+class SiteRecompute(RecomputeEvent):
+    pass
+
+
 class ScriptedScheduler(BaseAlgorithm):
     def __init__(self, replay, mr):
         super().__init__()
@@ -125,6 +139,19 @@ class ScriptedScheduler(BaseAlgorithm):
 
     def schedule(self, active_sessions):
         return self._replay.on_schedule(self, active_sessions)
+
+
+def used_before(ev):
+    """The EV object has a past: it was connected in an earlier simulation (another network), was drawing current in its
+    last connected period there, and was then reset() - the documented way to use EV objects again.  Nothing of that
+    past may show in the new simulation."""
+    past = ChargingNetwork()
+    past.register_evse(EVSE(ev.station_id, max_rate=32), 208, 0)
+    past.plugin(ev)
+    past.update_pilots(np.array([[16.0, 24.0]]), 0, 5)
+    past.update_pilots(np.array([[16.0, 24.0]]), 1, 5)
+    past.unplug(ev.station_id, ev.session_id)
+    ev.reset()
 
 
 def effective_kinds(start, var):
@@ -182,6 +209,12 @@ def build_network(start, var, cls=RecordingNetwork):
     elif var.constraints == "3ph":
         cons = [(Current({sid(s): (1 if s % 2 else -1) for s in range(1, ns + 1)}), 30.0, "mixed"),
                 (Current([sid(ns)]), 500.0, "slack")]
+    elif var.constraints == "dup":
+        # two limits on the same set of stations with the same coefficients (a cable and the breaker behind it): rows
+        # that look alike are still two constraints, and the tighter one binds wherever it was registered
+        cons = [(Current([sid(s) for s in range(1, ns + 1)]), 60.0, "cable"),
+                (Current([sid(s) for s in range(1, ns + 1)]), 24.0, "breaker"),
+                (Current([sid(1)]), 20.0, "first")]
     elif var.constraints == "removed":
         # every constraint has been removed again: the matrix is an empty (0, n) array, not None
         cons = [(Current([sid(1)]), 20.0, "gone")]
@@ -304,8 +337,14 @@ class Replay:
             ev = EV(I(x["arr"] + self.k), I(x["dep"] + self.k), x["req"] / KWH, sid(x["st"]), vid(i0 + 1),
                     make_battery(x, var, i0), estimated_departure=I(est + self.k))
             self.evs[i0 + 1] = ev
-            events.append(PluginEvent(I(x["arr"] + self.k), ev))
-        rec = [RecomputeEvent(np.int64(r + self.k) if var.np_ints else r + self.k) for r in st["recomp"]]
+            if var.reuse_evs:
+                used_before(ev)
+            events.append((SitePlugin if var.sub_events else PluginEvent)(I(x["arr"] + self.k), ev))
+        RecomputeEvent_, UnplugEvent_ = (SiteRecompute, SiteUnplug) if var.sub_events else (RecomputeEvent, UnplugEvent)
+        # the scenario's extra events: r < 1000 a Recompute at period r; r = 1000*i + x a stray (second) Unplug notice for
+        # session i at period x > its departure (AcnSim.tla: ExtraEvents)
+        rec = [RecomputeEvent_(np.int64(r + self.k) if var.np_ints else r + self.k) for r in st["recomp"] if r < 1000]
+        rec += [UnplugEvent_(r % 1000 + self.k, self.evs[r // 1000]) for r in st["recomp"] if r >= 1000]
         if var.sess_perm:
             var.rng.shuffle(rec)
             events = rec + events
@@ -319,6 +358,10 @@ class Replay:
             first = min(events, key=lambda e: (e.timestamp, e.precedence))
             late_events = [e for e in events if e is not first]
             queue = EventQueue([first])
+        elif var.queue_form == "empty_ctor":
+            # the simulator is built on a queue that is still empty; the caller fills it afterwards
+            late_events = list(events)
+            queue = EventQueue()
         else:
             queue = make_queue(events, "ctor" if var.queue_form == "after_ctor" else var.queue_form, var.rng)
         if var.late_scheduler:      # built without a scheduler, which is attached afterwards (update_scheduler)
@@ -329,7 +372,8 @@ class Replay:
             self.sim = Simulator(self.net, self.sched, queue, self.start_dt, period=self.T, verbose=var.verbose,
                                  store_schedule_history=var.store_hist)
         if late_events:
-            self.sim.event_queue.add_events(late_events)
+            # through the caller's own reference to the queue object, or through the simulator's attribute
+            (queue if var.rng.random() < 0.5 else self.sim.event_queue).add_events(late_events)
 
     # ---- helpers ----------------------------------------------------------------------
     def _next(self, *kinds):
@@ -868,7 +912,10 @@ class Replay:
     def dump_load(self, snap):
         sim2 = self.json_round_trip()
         # the documented way to continue: give the loaded simulator its scheduler again
-        self.sched = ScriptedScheduler(self, self.start["mr"])
+        # ("given its scheduler again": the very scheduler object that drove the run so far - still bound to the old
+        # simulator's interface - in half of the cases, a freshly constructed one in the others)
+        if self.sched is None or self.var.rng.random() < 0.5:
+            self.sched = ScriptedScheduler(self, self.start["mr"])
         sim2.update_scheduler(self.sched)
         self.sim = sim2
         self.net = sim2.network
@@ -884,19 +931,27 @@ class Replay:
         self.check_sharing()
 
     def check_sharing(self):
+        """Every reference to a session - from its station, the session history, pending and processed events - is one
+        object (a pending event may belong to a session that has not been plugged in yet: its references are then
+        the queue's own, e.g. the Plugin event and a stray Unplug notice)."""
         sim = self.sim
+        refs = {}
         for s in range(1, self.ns + 1):
             ev = sim.network.get_ev(sid(s))
             if ev is not None:
-                self._chk("C09", "shared_ev(station,ev_history)", True, sim.ev_history.get(ev.session_id) is ev)
+                refs.setdefault(ev.session_id, []).append(("station", ev))
+        for k, ev in sim.ev_history.items():
+            refs.setdefault(k, []).append(("ev_history", ev))
         for ts, e in sim.event_queue.queue:
-            if e.event_type == "Unplug":
-                self._chk("C09", "shared_ev(pending Unplug,ev_history)", True,
-                          sim.ev_history.get(e.ev.session_id) is e.ev)
+            if e.event_type in ("Plugin", "Unplug"):
+                refs.setdefault(e.ev.session_id, []).append(("pending " + e.event_type, e.ev))
         for e in sim.event_history:
             if e.event_type in ("Plugin", "Unplug"):
-                self._chk("C09", "shared_ev(event_history,ev_history)", True,
-                          sim.ev_history.get(e.ev.session_id) is e.ev)
+                refs.setdefault(e.ev.session_id, []).append(("event_history", e.ev))
+        for k, lst in refs.items():
+            first_name, first = lst[0]
+            for name, ev in lst[1:]:
+                self._chk("C09", "shared_ev(%s,%s)" % (name, first_name), True, ev is first)
 
     def compare_final(self, r):
         sim = self.sim
